@@ -248,7 +248,7 @@ def gen_inl(ctx, rng, count):
     for _ in range(count):
         n = rng.randint(1, 7)
         g = gen_legacy_graph(rng, n, rng.choice([(), ("dictref",), ("dictref", "tupleref")]), depth=rng.choice([2, 3]))
-        inp = {"graph": g, "keys": sorted(rng.sample(range(n), rng.randint(1, n))),
+        inp = {"graph": g, "keys": sorted(rng.sample(range(n), rng.randint(1, n if rng.random() < 0.4 else max(1, n // 3)))),
                "sel": rng.sample(range(n), rng.randint(0, n))}
         if rng.random() < 0.3:
             inp["extra"] = rng.sample(["nokey", 99, {"t": ["x", 77]}], rng.randint(1, 2))
